@@ -25,21 +25,21 @@ pub struct PropInfo {
 }
 
 pub const PROPS: &[PropInfo] = &[
-    PropInfo { id: "C03", engine: Engine::Sql, level: "exploration", quick_runs: 1500, thorough_runs: 60000, watchdog_s: 20,
+    PropInfo { id: "C03", engine: Engine::Sql, level: "exploration", quick_runs: 6000, thorough_runs: 60000, watchdog_s: 20,
         rule: "one case = one generated history (sessions, autocommit statements, batches, rollbacks, session drops, failing statements) run against the real engine and the reference model; non-trivial = at least one ROLLBACK / session drop / failed statement or batch happened and a later read or state check compared against the model; distinct = distinct fingerprints of the logical event log" },
-    PropInfo { id: "C04", engine: Engine::Sql, level: "exploration", quick_runs: 1500, thorough_runs: 60000, watchdog_s: 20,
+    PropInfo { id: "C04", engine: Engine::Sql, level: "exploration", quick_runs: 6000, thorough_runs: 60000, watchdog_s: 20,
         rule: "one case = one generated interleaving of 2-4 sessions' statements; non-trivial = two transactions overlapped and a session read after another transaction committed since it began; distinct = distinct fingerprints of the logical event log" },
-    PropInfo { id: "C07", engine: Engine::Sql, level: "exploration", quick_runs: 1200, thorough_runs: 50000, watchdog_s: 20,
+    PropInfo { id: "C07", engine: Engine::Sql, level: "exploration", quick_runs: 6000, thorough_runs: 50000, watchdog_s: 20,
         rule: "one case = one history on tables with PRIMARY KEY / UNIQUE / NOT NULL and a key domain of five values; non-trivial = at least one statement was rejected for a constraint and at least one key was re-inserted after delete or rollback; distinct = distinct fingerprints" },
-    PropInfo { id: "C09", engine: Engine::Sql, level: "exploration", quick_runs: 800, thorough_runs: 30000, watchdog_s: 30,
+    PropInfo { id: "C09", engine: Engine::Sql, level: "exploration", quick_runs: 1500, thorough_runs: 30000, watchdog_s: 30,
         rule: "one case = one history split by 1-6 clean close/reopen cycles with different open() configurations; non-trivial = at least one reopen with committed data and a state check after it; distinct = distinct fingerprints" },
     PropInfo { id: "C12", engine: Engine::Sql, level: "exploration", quick_runs: 300, thorough_runs: 10000, watchdog_s: 40,
         rule: "one case = one history executed against k databases with different configurations (page size, cache, pool, min keys, siblings); non-trivial = the configurations differ and at least one of them evicted pages; distinct = distinct (history fingerprint, configuration set)" },
-    PropInfo { id: "C13", engine: Engine::Sql, level: "exploration", quick_runs: 600, thorough_runs: 20000, watchdog_s: 30,
+    PropInfo { id: "C13", engine: Engine::Sql, level: "exploration", quick_runs: 3000, thorough_runs: 20000, watchdog_s: 30,
         rule: "one case = one history with VACUUM at arbitrary points; non-trivial = a VACUUM ran after committed or rolled-back work and a state check followed it; distinct = distinct fingerprints" },
-    PropInfo { id: "C15", engine: Engine::Sql, level: "exploration", quick_runs: 800, thorough_runs: 30000, watchdog_s: 30,
+    PropInfo { id: "C15", engine: Engine::Sql, level: "exploration", quick_runs: 5000, thorough_runs: 30000, watchdog_s: 30,
         rule: "one case = one DDL-heavy history (CREATE/DROP/CREATE UNIQUE INDEX inside committed and rolled-back transactions, name reuse, reopen); non-trivial = at least one DDL statement ran inside a session and a later statement resolved that name; distinct = distinct fingerprints" },
-    PropInfo { id: "C16", engine: Engine::Sql, level: "exploration", quick_runs: 1500, thorough_runs: 100000, watchdog_s: 20,
+    PropInfo { id: "C16", engine: Engine::Sql, level: "exploration", quick_runs: 4000, thorough_runs: 100000, watchdog_s: 20,
         rule: "one case = one history into which malformed, mutated and ill-typed statements are injected at arbitrary points of arbitrary sessions; non-trivial = at least one injected statement was rejected inside an open session and the state was compared afterwards; distinct = distinct fingerprints" },
     PropInfo { id: "C06", engine: Engine::Sql, level: "exploration", quick_runs: 800, thorough_runs: 30000, watchdog_s: 30,
         rule: "one case = one history followed by plan-variant families of the same logical query (index scan vs predicate no index serves; point vs range form); non-trivial = the variants of at least one family used different physical operators according to EXPLAIN; distinct = distinct fingerprints" },
@@ -93,13 +93,19 @@ pub fn profile_for(id: &str, rng: &mut Rng) -> Profile {
             p.max_tables = 2;
         }
         "C07" => {
-            p.constraints = true;
+            p.ddl_rich = rng.chance(50);
+            p.w_ddl = if p.ddl_rich { 16 } else { 4 };
+            // with ddl_rich, constraints arrive by CREATE UNIQUE INDEX / ALTER after the data
+            p.constraints = !p.ddl_rich || rng.chance(40);
             p.colliding_keys = true;
             p.max_sessions = 2;
             p.w_failing = 10;
             p.p_rollback = 40;
         }
         "C09" => {
+            if rng.chance(3) {
+                p.txn_burst = rng.range(8200, 8400) as u32;
+            }
             p.w_reopen = rng.range(4, 10) as u32;
             p.w_flush = *rng.pick(&[0, 3]);
             p.constraints = rng.chance(40);
